@@ -374,8 +374,12 @@ def budget_for(name, tier):
     return max(25_000_000, min(40 * int(base), 600_000_000)) * mult, True
 
 
+SEED = [0]
+
+
 def _solve(args):
-    kind, name, text, rlimit, timeout_ms, slots = args
+    kind, name, text, rlimit, timeout_ms, slots = args[:6]
+    seed = args[6] if len(args) > 6 else 0
     rlimits = rlimit if isinstance(rlimit, (list, tuple)) else None
     out = []
 
@@ -386,6 +390,8 @@ def _solve(args):
         s_.set("smt.mbqi", False)
         s_.set("rlimit", rlimits[0] if rlimits else rlimit)
         s_.set("timeout", timeout_ms)
+        if seed:
+            s_.set("random_seed", seed)
         s_.from_string(text)
         return ctx_, s_
 
@@ -488,7 +494,7 @@ def _model_text(s, limit=6000):
 GROUP_MAX = 10
 
 
-def discharge(vcs, covers, tier="quick", procs=None):
+def discharge(vcs, covers, tier="quick", procs=None, single=False):
     """run every VC and cover; VCs that share their hypotheses are solved incrementally in one solver
     (guard literals + check-sat-assuming)"""
     rlimit = 150_000_000 if tier == "quick" else 600_000_000
@@ -506,8 +512,9 @@ def discharge(vcs, covers, tier="quick", procs=None):
         groups.setdefault(key, []).append(i)
     jobs = []
     for key, idxs in groups.items():
-        for c in range(0, len(idxs), GROUP_MAX):
-            chunk = idxs[c:c + GROUP_MAX]
+        gmax = 1 if single else GROUP_MAX
+        for c in range(0, len(idxs), gmax):
+            chunk = idxs[c:c + gmax]
             sv = z3.Solver()
             for p in vcs[chunk[0]]._pc:
                 sv.add(p)
@@ -524,7 +531,7 @@ def discharge(vcs, covers, tier="quick", procs=None):
                 sv.add(z3.Implies(g, z3.And(list(vc._extra) + [z3.Not(vc._goal)])))
                 slots.append(f"__g{n_}")
                 vc.group, vc.slot = len(jobs), f"__g{n_}"
-            jobs.append(("vc", tuple(chunk), sv.to_smt2(), rls, timeout, slots))
+            jobs.append(("vc", tuple(chunk), sv.to_smt2(), rls, timeout, slots, SEED[0]))
     for i, (nm, text) in enumerate(covers):
         jobs.append(("cover", f"c{i}", text, rlimit // 8, 20_000, None))
     procs = procs or min(16, os.cpu_count() or 4)
@@ -565,6 +572,23 @@ def discharge(vcs, covers, tier="quick", procs=None):
             else:
                 i = int(key[1:])
                 cover_res[covers[i][0]] = (st, reason)
+    # second chance: a VC that ran out of resources is solved once more on its own (own process, own solver, same budget) - solver
+    # behaviour inside a group depends on the other goals of the group and on what ran before in that process
+    if not getattr(discharge, "_retrying", False):
+        def exhausted(vc):
+            return getattr(vc, "status", None) == "undecided" or \
+                (getattr(vc, "status", None) == "failed" and "no proof within" in (vc.reason or ""))
+        discharge._retrying = True
+        try:
+            for seed in (0, 7, 23):           # alone, then alone with two other solver seeds: a proof that exists is found by one of them
+                again = [vc for vc in vcs if exhausted(vc)]
+                if not again:
+                    break
+                SEED[0] = seed
+                discharge(again, [], tier, procs, single=True)
+        finally:
+            SEED[0] = 0
+            discharge._retrying = False
     for i, others in twins.items():
         for o in others:
             for attr in ("seconds", "backend", "reason", "model", "status"):
